@@ -2279,7 +2279,14 @@ def gen_tls_prog(rng, churn=False):
         main += [(OP['JN'], t, 0, 0) for t in order]
     main += [(OP['KGET'], 0, 0, 0), (OP['KDELETE'], 0, 1, 2000), (OP['KDELETE'], 1, 0, 0), (OP['KDELETE'], 1, 0, 0)]
     # in some programs destructor 3 itself ends the thread (myth_exit from inside the destructor)
-    init = [(6, 0, 1)] if (not churn and rng.random() < 0.3) else []
+    init = []
+    if not churn and 3 in dts and rng.random() < 0.6:
+        # destructor 3 itself ends the thread; every thread holds a value under a key with that destructor
+        init.append((6, 0, 1))
+        k3 = dts.index(3)
+        for t in range(1, len(bodies) + 1):
+            if not fresh_reads and rng.random() < 0.8:
+                bodies[t - 1].insert(0, (OP['KSET'], k3, 1000 * t + k3 + 1, 0))
     if 2 in dts and rng.random() < 0.6:
         # destructor 2 suspends (yields, in some programs blocks on mutex 3 which another thread holds across yields):
         # the terminating thread may continue on another worker
